@@ -64,6 +64,12 @@ def groups(ctx, rng):
 
 def gen(ctx):
     rng = ctx.rng
+    # programs that are refused (at parse time, at lowering, at encoding) interleaved with the accepted ones: a refusal must leave
+    # nothing behind that changes a later compilation
+    for _src in ["(def (Report (x 0))) (when true (:= Report.x 3000000000) (report))",
+                 "(def (Report (x 0))) (when true (:= Report.x (+ 1 (+ 1 (+ 1 (+ 1 (+ 1 (+ 1 (+ 1 (+ 1 (+ 1 1)))))))))) (report))",
+                 "(def (Report (1bad 0)) (c 1)) (when true (report))", "(def (Report (x 0))) (when 5 (report))"]:
+        yield Case("CMP", "%s - -" % G.hx(_src), tags=("refused-first",), meta=("refused",))
     # several threads compiling at the same time: a compilation shares nothing with the others (but the uid counter)
     for _ in range(60 if ctx.thorough else 6):
         k = rng.choice([2, 4, 8, 16, 32])
@@ -109,7 +115,7 @@ def nontrivial(c, r):
 
 
 def oracle(c, impl_res):
-    if c.cmd != "CMP":
+    if c.cmd != "CMP" or "refused-first" in c.tags:
         return None
     if c.meta is None:
         # the reference layout itself: must be accepted (documented program)
